@@ -456,7 +456,7 @@ def run(tier, seed):
     run.not_covered += ["binary OUTPUT4: the column readers, the skipper and the tail of _loadop4_binary ARE verified deductively (loop invariants over a ghost file: every read matches its struct, "
                         "every put is the string the grammar defines, final position); its header loop and the ASCII readers are covered by the bounded differential check only",
                         "OUTPUT2: rdop2matrix and skipop2matrix (with _getkey inlined) ARE verified deductively against the record grammar (strings stored at the row / column / offset / count "
-                        "the grammar defines, complex row doubling, decoder and skipper end on the same byte); rdop2record in every form (None/int/uint/double/single/bytes, N given or not) and skipop2record likewise (multi-part records: parts appended in order at the offsets the grammar defines, all forms and the skipper end behind the two closing keys); rdop2nt, rdop2tabheaders, directory and set_position are bounded only",
+                        "the grammar defines, complex row doubling, decoder and skipper end on the same byte); rdop2record in every form (None/int/uint/double/single/bytes, N given or not) and skipop2record likewise (multi-part records: parts appended in order at the offsets the grammar defines, all forms and the skipper end behind the two closing keys); rdop2nt (name/trailer header consumed exactly as laid out); rdop2tabheaders, directory and set_position are bounded only",
                         "table-specific decoders (_rdop2bgpdt, rdn2cop2, rdparampost, ...)", "OUTPUT2 files written by other Nastran versions with extra header records"]
     for rel, names in ((OP4, ("_decode_format", "_skipop4_binary", "_rd_dense_binary", "_rd_bigmat_binary", "_rd_nonbigmat_binary", "_loadop4_binary", "_loadop4_ascii", "_skipop4_ascii")),
                        (OP2, ("rdop2matrix", "skipop2matrix", "rdop2nt", "rdop2record", "skipop2record", "rdop2tabheaders", "directory", "rdop2mats"))):
@@ -475,7 +475,7 @@ def run(tier, seed):
         src4 = report.read_source(OP4)
         pipeline.verify_jobs(run, OR.jobs(src4))
         from contracts import op2_readers as OR2
-        pipeline.verify_jobs(run, OR2.jobs(report.read_source(OP2)) + OR2.record_jobs(report.read_source(OP2)))
+        pipeline.verify_jobs(run, OR2.jobs(report.read_source(OP2)) + OR2.record_jobs(report.read_source(OP2)) + OR2.nt_jobs(report.read_source(OP2)))
         n_inv, bad_inv = OR.open_read_invariant(src4)
         run.add_verdicts([report.Verdict("op4._op4open_read::class invariant of the precompiled structs (sizes, byte order, words per real) - real branch executed for {32,64}-bit x {<,>}",
                                          "undecided" if n_inv is None else ("failed" if bad_inv else "proved"), "exhaustive execution (finite domain)", 0.0, "post", OP4,
